@@ -3,6 +3,13 @@
 //! Ops (see `lean/BarterModel/Driver/C16.lean`):
 //!   `init n m direct|engine`   n instruments (instrument i on exchange i % 2, base `b{i}`, quote
 //!                              `usdt`), m = number of exchange-assets of that configuration
+//!   `initb n m direct|engine L<k> [a total free]..`
+//!                              configuration-shape family: instrument layout `k` (see `layout_defs`: 0 the
+//!                              layout of `init`, 1 three exchanges unevenly filled, 2 ONE exchange with chained
+//!                              cross pairs that share assets, 3 the same pair on three exchanges) and INITIAL
+//!                              balances given to `EngineStateBuilder::balances` (asset index `a`; they are
+//!                              applied at `time_engine_start` = `bal a 0 total free`); odd layouts run with
+//!                              exchange 0 tracked but without an execution link
 //!   `pos i pnl entry qty`      (direct) `TradingSummaryGenerator::update_from_position`
 //!   `rt i B|S entry qty exit feeIn feeOut`
 //!                              (engine) opening fill + exactly closing fill via `Engine::process`
@@ -38,6 +45,10 @@ use barter_instrument::{
 };
 use barter_integration::snapshot::Snapshot;
 use rust_decimal::Decimal;
+use barter::engine::state::{
+    EngineState, global::DefaultGlobalData, instrument::data::DefaultInstrumentMarketData,
+};
+use barter_instrument::{Keyed, asset::{ExchangeAsset, name::AssetNameInternal}};
 use vh::{engine_util::*, *};
 
 fn instrument_name(i: usize) -> InstrumentNameInternal {
@@ -46,6 +57,35 @@ fn instrument_name(i: usize) -> InstrumentNameInternal {
 
 fn n_assets(n: usize) -> usize {
     n + n.min(2)
+}
+
+/// Instrument layouts of the configuration-shape family: `(exchange label, base, quote)` of instrument label `i`.
+fn layout_defs(layout: usize, n: usize) -> Vec<(usize, String, String)> {
+    (0..n)
+        .map(|i| match layout {
+            // the layout of `init`
+            0 => (i % 2, format!("b{i}"), "usdt".to_string()),
+            // three exchanges, unevenly filled; the first instrument sits on the LAST exchange
+            1 => ([2usize, 0, 0, 0, 1, 0][i % 6], format!("b{i}"), "usdt".to_string()),
+            // one exchange (not the first of the table) with chained cross pairs: the quote of instrument i is
+            // the base of instrument i-1, so assets are shared between instruments
+            2 => (1, format!("b{i}"), if i == 0 { "usdt".to_string() } else { format!("b{}", i - 1) }),
+            // the same pair on three exchanges (names differ by the exchange suffix only), descending bases
+            _ => (i % 3, format!("b{}", 9 - i / 3), "usdt".to_string()),
+        })
+        .collect()
+}
+
+/// number of distinct exchange-assets of a layout
+fn layout_assets(defs: &[(usize, String, String)]) -> usize {
+    let mut keys: Vec<(usize, &str)> = vec![];
+    for (ex, base, quote) in defs {
+        keys.push((*ex, base.as_str()));
+        keys.push((*ex, quote.as_str()));
+    }
+    keys.sort();
+    keys.dedup();
+    keys.len()
 }
 
 enum Sut {
@@ -62,12 +102,18 @@ fn fmt_pf(v: Option<Decimal>) -> String {
     }
 }
 
-fn observe(engine: &TestEngine, n: usize, summary: &TradingSummary<Daily>, lines: &mut Vec<String>) {
+fn observe(
+    engine: &TestEngine,
+    names: &[InstrumentNameInternal],
+    summary: &TradingSummary<Daily>,
+    lines: &mut Vec<String>,
+) {
+    let n = names.len();
     assert_eq!(summary.instruments.len(), n, "summary has one entry per instrument");
     for i in 0..n {
         let sheet = summary
             .instruments
-            .get(&instrument_name(i))
+            .get(&names[i])
             .expect("summary entry for the instrument name");
         lines.push(format!(
             "ts {i} pnl {} win {} pf {}",
@@ -86,13 +132,14 @@ fn observe(engine: &TestEngine, n: usize, summary: &TradingSummary<Daily>, lines
     }
 }
 
-fn instrument_index(engine: &TestEngine, i: usize) -> usize {
+fn instrument_index(engine: &TestEngine, names: &[InstrumentNameInternal], i: usize) -> usize {
+    let Some(name) = names.get(i) else { return 1000 + i };
     // an unknown label is passed through as an out-of-range index (the code panics on it)
     engine
         .state
         .instruments
         .0
-        .get_index_of(&instrument_name(i))
+        .get_index_of(name)
         .unwrap_or(1000 + i)
 }
 
@@ -156,13 +203,14 @@ fn position_exits(audit: &<TestEngine as Processor<Event>>::Audit) -> Vec<Positi
 fn run() {
     run_cases(|case, lines| {
         let mut sut: Option<Sut> = None;
-        let mut n = 0usize;
+        let mut names: Vec<InstrumentNameInternal> = vec![];
         let rf = Decimal::new(5, 2);
         for (k, op) in case.ops.iter().enumerate() {
             lines.push("@".into());
             match op[0].as_str() {
                 "init" => {
-                    n = op[1].parse().unwrap();
+                    let n: usize = op[1].parse().unwrap();
+                    names = (0..n).map(instrument_name).collect();
                     let m: usize = op[2].parse().unwrap();
                     let bases: Vec<String> = (0..n).map(|i| format!("b{i}")).collect();
                     let defs: Vec<(usize, &str, &str)> =
@@ -174,7 +222,62 @@ fn run() {
                     assert_eq!(m, n_assets(n));
                     let generator = engine.trading_summary_generator(rf);
                     let summary = generator.clone().generate(Daily);
-                    observe(&engine, n, &summary, lines);
+                    observe(&engine, &names, &summary, lines);
+                    sut = Some(match op[3].as_str() {
+                        "direct" => Sut::Direct(Box::new(engine), generator),
+                        "engine" => Sut::Engine(Box::new(engine)),
+                        other => panic!("bad mode {other}"),
+                    });
+                }
+                "initb" => {
+                    let n: usize = op[1].parse().unwrap();
+                    let m: usize = op[2].parse().unwrap();
+                    let layout: usize = op[4].strip_prefix('L').expect("layout").parse().unwrap();
+                    assert!(layout <= 3 && (op.len() - 5) % 3 == 0, "bad op initb");
+                    let defs = layout_defs(layout, n);
+                    names = defs
+                        .iter()
+                        .map(|(ex, b, q)| InstrumentNameInternal::new(format!("{b}_{q}_x{ex}")))
+                        .collect();
+                    let refs: Vec<(usize, &str, &str)> =
+                        defs.iter().map(|(ex, b, q)| (*ex, b.as_str(), q.as_str())).collect();
+                    let instruments = build_instruments(&refs);
+                    assert_eq!(instruments.assets().len(), m, "asset count of the configuration");
+                    assert_eq!(m, layout_assets(&defs));
+                    // initial balances: `EngineStateBuilder::balances`, keyed by ExchangeAsset (an unknown asset
+                    // index has no key: the builder is given a key the state does not contain and panics)
+                    let balances: Vec<Keyed<ExchangeAsset<AssetNameInternal>, barter_execution::balance::Balance>> = op[5..]
+                        .chunks(3)
+                        .map(|c| {
+                            let a: usize = c[0].parse().unwrap();
+                            let key = match instruments.assets().get(a) {
+                                Some(k) => ExchangeAsset::new(k.value.exchange, k.value.asset.name_internal.clone()),
+                                None => ExchangeAsset::new(
+                                    EXCHANGES[4],
+                                    AssetNameInternal::new(format!("unknown{a}")),
+                                ),
+                            };
+                            Keyed::new(key, Balance::new(parse_dec(&c[1]), parse_dec(&c[2])))
+                        })
+                        .collect();
+                    // odd layouts: exchange 0 is tracked but has no execution link
+                    let links: Vec<Link> = if layout % 2 == 1 { vec![Link::Missing] } else { vec![] };
+                    let built = build_engine(&instruments, &links, TradingState::Disabled);
+                    let mut engine = built.engine;
+                    let state: State = EngineState::builder(
+                        &instruments,
+                        DefaultGlobalData::default(),
+                        DefaultInstrumentMarketData::default,
+                    )
+                    .trading_state(TradingState::Disabled)
+                    .balances(balances)
+                    .time_engine_start(t0())
+                    .build();
+                    engine.state = state;
+                    assert_eq!(engine.state.assets.0.len(), m);
+                    let generator = engine.trading_summary_generator(rf);
+                    let summary = generator.clone().generate(Daily);
+                    observe(&engine, &names, &summary, lines);
                     sut = Some(match op[3].as_str() {
                         "direct" => Sut::Direct(Box::new(engine), generator),
                         "engine" => Sut::Engine(Box::new(engine)),
@@ -187,7 +290,7 @@ fn run() {
                     };
                     let i: usize = op[1].parse().unwrap();
                     let position = PositionExited::<QuoteAsset, InstrumentIndex> {
-                        instrument: InstrumentIndex(instrument_index(engine, i)),
+                        instrument: InstrumentIndex(instrument_index(engine, &names, i)),
                         side: if k % 2 == 0 { Side::Buy } else { Side::Sell },
                         price_entry_average: parse_dec(&op[3]),
                         quantity_abs_max: parse_dec(&op[4]),
@@ -203,14 +306,14 @@ fn run() {
                     };
                     generator.update_from_position(&position);
                     let summary = generator.clone().generate(Daily);
-                    observe(engine, n, &summary, lines);
+                    observe(engine, &names, &summary, lines);
                 }
                 "rt" => {
                     let Some(Sut::Engine(engine)) = sut.as_mut() else {
                         panic!("rt needs engine mode")
                     };
                     let i: usize = op[1].parse().unwrap();
-                    let idx = instrument_index(engine, i);
+                    let idx = instrument_index(engine, &names, i);
                     let (open, close) = match op[2].as_str() {
                         "B" => (Side::Buy, Side::Sell),
                         "S" => (Side::Sell, Side::Buy),
@@ -234,7 +337,7 @@ fn run() {
                         fmt_dec(p.quantity_abs_max)
                     ));
                     let summary = engine.trading_summary_generator(rf).generate(Daily);
-                    observe(engine, n, &summary, lines);
+                    observe(engine, &names, &summary, lines);
                 }
                 // a position opened, flipped by ONE opposite fill of twice its size (closes it and opens the
                 // opposite position in the same step), the remainder closed at the same price: two closed positions
@@ -243,7 +346,7 @@ fn run() {
                         panic!("flip needs engine mode")
                     };
                     let i: usize = op[1].parse().unwrap();
-                    let idx = instrument_index(engine, i);
+                    let idx = instrument_index(engine, &names, i);
                     let (open, close) = match op[2].as_str() {
                         "B" => (Side::Buy, Side::Sell),
                         "S" => (Side::Sell, Side::Buy),
@@ -271,7 +374,7 @@ fn run() {
                         ));
                     }
                     let summary = engine.trading_summary_generator(rf).generate(Daily);
-                    observe(engine, n, &summary, lines);
+                    observe(engine, &names, &summary, lines);
                 }
                 "bal" => {
                     let a: usize = op[1].parse().unwrap();
@@ -285,7 +388,7 @@ fn run() {
                         Sut::Direct(engine, generator) => {
                             generator.update_from_balance(Snapshot(&balance));
                             let summary = generator.clone().generate(Daily);
-                            observe(engine, n, &summary, lines);
+                            observe(engine, &names, &summary, lines);
                         }
                         Sut::Engine(engine) => {
                             let exchange = ExchangeIndex(exchange_index_of_asset(engine, a));
@@ -296,7 +399,7 @@ fn run() {
                                 },
                             )));
                             let summary = engine.trading_summary_generator(rf).generate(Daily);
-                            observe(engine, n, &summary, lines);
+                            observe(engine, &names, &summary, lines);
                         }
                     }
                 }
@@ -451,6 +554,7 @@ fn generate(seed: u64, n_cases: usize, tier: &str) {
         }
     }
     domain_family(&mut out, seed, n_cases, tier);
+    config_family(&mut out, seed, n_cases, tier);
     out.flush();
 }
 
@@ -657,6 +761,86 @@ fn domain_family(out: &mut Out, seed: u64, n_cases: usize, tier: &str) {
                         out.line(format!("pos {} {line}", (i + 1) % n as u64));
                     }
                 }
+            }
+        }
+    }
+}
+
+// ---------------------------------------------------------- configuration-shape family (`cfg..` cases)
+//
+// Separately seeded, appended after the `d..` cases (random and domain cases stay exactly as they were):
+// HOW the engine state is assembled before the first event. `init` always builds 1-3 (6) instruments
+// alternating over two exchanges with an EMPTY starting state; here, cycled by case number, the four
+// layouts of `layout_defs` (three exchanges unevenly filled, one exchange with shared assets, the same pair on
+// three exchanges) and, in three of four cases, INITIAL balances configured through
+// `EngineStateBuilder::balances` for a subset of the assets (zero / negative totals, 10 % an asset twice:
+// the builder keeps the last). Events: closed positions / round trips and balance snapshots at, before
+// (stale behind the engine's guard, not behind the direct generator) and after the engine start.
+fn config_family(out: &mut Out, seed: u64, n_cases: usize, tier: &str) {
+    let mut rng = Rng::new(seed ^ 0xCF_16_CF_16);
+    let count = (n_cases / 8).max(8);
+    let max_len = if tier == "thorough" { 40 } else { 25 };
+    for j in 0..count {
+        out.case(format!("cfg{}", j + 1));
+        let layout = j % 4;
+        let n = match layout {
+            0 => rng.range(1, 3),
+            1 => rng.range(1, 6),
+            2 => rng.range(1, 4),
+            _ => rng.range(2, 6),
+        } as usize;
+        let m = layout_assets(&layout_defs(layout, n));
+        let engine = rng.chance(50);
+        let mut line = format!("initb {n} {m} {} L{layout}", if engine { "engine" } else { "direct" });
+        let unknown = rng.chance(3);
+        if (j / 4) % 4 != 3 || unknown {
+            let mut picked: Vec<usize> = (0..m).filter(|_| rng.chance(60)).collect();
+            if picked.is_empty() {
+                picked.push(rng.below(m as u64) as usize);
+            }
+            if j % 2 == 1 {
+                picked.reverse();
+            }
+            if rng.chance(10) {
+                picked.push(picked[0]);
+            }
+            if unknown {
+                picked.push(m);
+            }
+            for a in picked {
+                let total = match rng.below(6) {
+                    0 => 0,
+                    1 => -rng.range(1, 300),
+                    _ => rng.range(1, 900),
+                };
+                let free = rng.range(0, total.abs().max(1));
+                line.push_str(&format!(" {a} {} {}", dec_str(total, 1), dec_str(free, 1)));
+            }
+        }
+        out.line(line);
+        if unknown {
+            continue;
+        }
+        let len = match rng.below(8) {
+            0 => 0,
+            _ => rng.range(1, max_len),
+        };
+        let bias = *rng.pick(&[0u64, 0, 1, 2, 3]);
+        let bal_pct = *rng.pick(&[10u64, 30, 60]);
+        let mut clock = 0i64;
+        for _ in 0..len {
+            if rng.chance(bal_pct) {
+                if rng.chance(12) {
+                    // older than the initial balance: dropped by the engine's guard, applied by the direct generator
+                    let a = rng.below(m as u64);
+                    out.line(format!("bal {a} {} {} 1", -rng.range(1, 50), dec_str(rng.range(0, 500), 1)));
+                } else {
+                    out.line(gen_bal(&mut rng, m, &mut clock));
+                }
+            } else if engine {
+                out.line(gen_rt(&mut rng, n, bias));
+            } else {
+                out.line(gen_pos(&mut rng, n, bias));
             }
         }
     }
